@@ -62,6 +62,7 @@ type scn struct {
 	height       uint64 // height of the last executed block
 	blockNo      int    // number of workload blocks executed (policy restart index)
 	ibtp         *ibtpModel
+	grp          *groupModel
 	bal          *balModel
 	fatal        bool
 	fabsimProofs int
@@ -129,6 +130,7 @@ func Execute(prop string, p *sim.Plan, keep bool) (res *sim.Result) {
 	}
 	s.height = s.reps[0].height
 	s.ibtp = newIbtpModel(s)
+	s.grp = newGroupModel(s)
 	s.bal = newBalModel(s)
 	s.setup()
 	if s.fatal || res.Aborted != "" {
@@ -350,6 +352,8 @@ func (s *scn) apply(st CStep) {
 		s.applyIBTP(st)
 	case "relay":
 		s.applyRelay(st)
+	case "gopen", "gchild", "grecv":
+		s.applyGroup(st)
 	default:
 		s.applyExtra(st)
 	}
@@ -567,6 +571,7 @@ func (s *scn) flush() *blockResult {
 	// per-block oracles on the reference replica
 	s.bal.afterBlock(h, txs, metas, ref)
 	s.ibtp.afterBlock(h, txs, metas, ref)
+	s.grp.afterBlock(h, txs, metas, ref)
 	s.afterBlockExtra(h, txs, metas, ref)
 	if s.twin != nil {
 		s.twinCheck(h, ev, txs, metas, ref)
